@@ -289,12 +289,15 @@ func TestDrv_C18(t *testing.T) {
 	}
 	// the cache-refresh goroutine of a positive ttl runs while the attack runs and stops with it
 	{
+		// goroutines started by the DNSCaching option (their "created by" line names it).  Counted when no dial is in
+		// flight - right after the attacker was built, and after the attack has ended - so that only the cache
+		// refresher can be among them, whatever the closures are called.
 		countRefreshers := func() int {
 			buf := make([]byte, 1<<22)
 			buf = buf[:runtime.Stack(buf, true)]
 			n := 0
 			for _, g := range strings.Split(string(buf), "\n\n") {
-				if strings.Contains(g, "DNSCaching") && strings.Contains(g, "lib/attack.go") && !strings.Contains(g, "DialContext") && !strings.Contains(g, "LookupHost") {
+				if i := strings.LastIndex(g, "created by "); i >= 0 && strings.Contains(g[i:], "DNSCaching") {
 					n++
 				}
 			}
@@ -306,14 +309,14 @@ func TestDrv_C18(t *testing.T) {
 		dnsMu.Unlock()
 		rec := &dialRec{}
 		atk := vegeta.NewAttacker(append(newStack(rec, "dns", 20*time.Millisecond, nil), vegeta.Workers(1), vegeta.MaxWorkers(1))...)
+		time.Sleep(5 * time.Millisecond)
+		during := countRefreshers() - before // no dial yet: the refresher alone
 		tgt := vegeta.NewStaticTargeter(vegeta.Target{Method: "GET", URL: "http://dual32.test:80/"})
 		results := atk.Attack(tgt, vegeta.ConstantPacer{Freq: 200, Per: time.Second}, 0, "refresh")
 		n := 0
-		during := 0
 		for range results {
 			n++
 			if n == 40 { // ~200 ms: about ten refresh periods
-				during = countRefreshers() - before
 				atk.Stop()
 			}
 		}
